@@ -8,6 +8,7 @@ import (
 	"testing/synctest"
 	"time"
 
+	"verif/harness/creators"
 	"verif/harness/ev"
 )
 
@@ -187,15 +188,17 @@ func TestC02(t *testing.T) {
 		r.Count("passes_over_"+v[0]+"_suffix_"+v[1], 1)
 	}
 	execBackend, execSuffix = "memory", ""
+	// "returned 'already exists'": key inserts of several cold processes that really overlap inside the metastore
+	creators.Run(r, "C02", ev.Pick(30, 600), journal)
 	r.Finish(t)
 }
 
 func TestC09(t *testing.T) {
 	r := ev.Start("C09", "fault_enumeration")
-	r.Rule("leak ledger over fault enumeration: same cells as C02 plus decrypt operations and a session-cache configuration; fault domains = metastore, KMS, AEAD call k fails, secret allocation k fails (every single position; pairs sampled in quick, all in thorough). The tracking SecretFactory accounts for every secret: the data key of an encrypt must be closed when the call returns; with caching disabled every secret created by the call must be closed at return; after session and factory Close every secret must have been closed (no leak) and never touched afterwards. Seeded histories (hist engine, OC09) and the C14 duplicate-key schedules run the same ledger. Distinct+non-trivial: (cell, fault plan) pairs in which a fault fired.")
+	r.Rule("leak ledger over fault enumeration: same cells as C02 plus decrypt operations and a session-cache configuration; fault domains = metastore, KMS, AEAD call k fails, secret allocation k fails, secret access k refused / its release fails after the callback ran (every single position; pairs sampled in quick, all in thorough). The tracking SecretFactory accounts for every secret: the data key of an encrypt must be closed when the call returns; with caching disabled every secret created by the call must be closed at return; after session and factory Close every secret must have been closed (no leak) and never touched afterwards. Seeded histories (hist engine, OC09) and the C14 duplicate-key schedules run the same ledger. Distinct+non-trivial: (cell, fault plan) pairs in which a fault fired.")
 	r.Assume("the ledger wraps the real memguard/protectedmemory factories through WithSecretFactory, so it sees every secret the SDK allocates")
 	cs := cells([]string{"simple", "nocache", "lru1-shared", "sesscache"}, []string{"enc", "dec"})
-	explore(t, r, "C09", cs, map[string]bool{"ms": true, "kms": true, "aead": true, "alloc": true}, ev.Pick(12, 100))
+	explore(t, r, "C09", cs, map[string]bool{"ms": true, "kms": true, "aead": true, "alloc": true, "access": true}, ev.Pick(12, 100))
 	schedulesForC09(t, r)
 	sessionCacheLedger(t, r)
 	capacityScenarios(t, r)
@@ -207,14 +210,14 @@ func TestC10(t *testing.T) {
 	r.Rule("retained-buffer scan over fault enumeration: same cells and fault domains as C09. The monitors keep the very slices that held key plaintext (the slice passed to SecretFactory.New, every AEAD.Decrypt output except the payload handed to the caller, every KMS.DecryptKey output) and read them when the public call returns, success or failure: every byte must be zero. The AWS KMS plug-ins are checked with fake regional clients that retain the Plaintext buffers they hand out. Distinct+non-trivial: (cell, fault plan) pairs in which a fault fired.")
 	r.Assume("holding a reference keeps the buffer from being recycled, so reading it after the call is sound")
 	cs := cells([]string{"simple", "nocache", "lru1-shared"}, []string{"enc", "dec"})
-	explore(t, r, "C10", cs, map[string]bool{"ms": true, "kms": true, "aead": true, "alloc": true}, ev.Pick(12, 100))
+	explore(t, r, "C10", cs, map[string]bool{"ms": true, "kms": true, "aead": true, "alloc": true, "access": true}, ev.Pick(12, 100))
 	// the same sweep over the other secure-memory implementation (its New must wipe the source slice too)
 	secretImpl = "protectedmemory"
 	cs2 := cells([]string{"simple", "nocache"}, []string{"enc", "dec"})
 	if !ev.Thorough() {
 		cs2 = cs2[:len(cs2)/2]
 	}
-	explore(t, r, "C10", cs2, map[string]bool{"ms": true, "kms": true, "aead": true, "alloc": true}, ev.Pick(0, 40))
+	explore(t, r, "C10", cs2, map[string]bool{"ms": true, "kms": true, "aead": true, "alloc": true, "access": true}, ev.Pick(0, 40))
 	secretImpl = "memguard"
 	awsPlaintexts(t, r)
 	r.Finish(t)
